@@ -1,0 +1,12 @@
+//go:build verif && verifcard
+
+package uhppote
+
+import (
+	"github.com/uhppoted/uhppote-core/types"
+)
+
+// VerifIsCardNumberValid exposes the PutCard card number/format predicate for exhaustive sweeps.
+func VerifIsCardNumberValid(cardNumber uint32, formats ...types.CardFormat) bool {
+	return isCardNumberValid(cardNumber, formats...)
+}
